@@ -21,6 +21,7 @@ import random
 from .common import case, guarded, ordinal_instance, weak_orders, rand_weak_order, rand_perm
 
 ID = "C12"
+COVER_FILES = ['properties/subdomains/ordinal/singlepeaked/k_alternative_deletion.py']
 RULE = ("every set of 1-3 distinct strict orders over 3 alternatives (dynamic programme on all, ILPs on a budgeted "
         "subset in quick), sets of 1-3 weak orders over 3 alternatives; random soc/toc profiles with m <= 5 (thorough 6) "
         "alternatives and n <= 5 distinct orders: planted single-peaked + 0-3 spoiler votes, planted + 0-3 spoiler "
